@@ -76,7 +76,7 @@ package render
 // Abstract view: total(tw) = wtotal(tw.w) ++ tw.buf  (what the downstream writer has
 // accepted plus what is still buffered). A trimWriter never wraps another trimWriter.
 
-//@ typeinv render.trimWriter: self.w != nil && !is(self.w, *render.trimWriter)
+//@ typeinv render.trimWriter: self.w != nil && !is(self.w, *render.trimWriter) && pl_ptr(self.w) < alloc
 
 //@ func (*render.trimWriter).TrimRight
 //@ props C13 C01
